@@ -1340,5 +1340,5 @@ WORKLOADS = [
     Workload("words", wl_words, quick=450, thorough=16000),
     Workload("library-internal", wl_library_internal, quick=80, thorough=2400),
     Workload("repo-tests-under-monitors", wl_repo_tests, quick=1, thorough=1),
-    Workload("docs-as-programs", wl_docs, quick=12, thorough=12),
+    Workload("docs-as-programs", wl_docs, quick=6, thorough=12),
 ]
